@@ -3,6 +3,7 @@ package minersc
 import (
 	"encoding/json"
 	"fmt"
+	"sort"
 	"strings"
 	"time"
 
@@ -63,7 +64,13 @@ func (gl *GlobalSettings) save(balances cstate.StateContextI) error {
 
 func (gl *GlobalSettings) update(inputMap config2.StringMap) error {
 	var err error
-	for key, value := range inputMap.Fields {
+	keys := make([]string, 0, len(inputMap.Fields))
+	for key := range inputMap.Fields {
+		keys = append(keys, key)
+	}
+	sort.Strings(keys)
+	for _, key := range keys {
+		value := inputMap.Fields[key]
 		info, found := config2.GlobalSettingInfo[key]
 		if !found {
 			return fmt.Errorf("'%s' is not a valid global setting", key)
